@@ -110,12 +110,17 @@ class GrammarParser:
             self._gettoken()
             # Make it clear that we can go back to the old state and repeat.
             z.add_arc(a)
-            if value == "+":
-                return a, z
-            else:
-                # The end state is the same as the beginning, nothing must
-                # change.
-                return a, a
+            # The repetition needs start and end states of its own, otherwise
+            # an arc that is added to them from outside (e.g. the one skipping
+            # `[x y*]` or `[x+ y]`) could be reached from within the loop.
+            aa = NFAState(self._current_rule_name)
+            zz = NFAState(self._current_rule_name)
+            aa.add_arc(a)
+            z.add_arc(zz)
+            if value == "*":
+                # Zero repetitions are possible as well.
+                aa.add_arc(zz)
+            return aa, zz
 
     def _parse_atom(self):
         # atom: '(' rhs ')' | NAME | STRING
